@@ -132,4 +132,35 @@ Section RT.
   Theorem read_rejects e : header_from_bytes e = Err ValueError ->
     read_envelope package json_parse decompress e = Err ValueError.
   Proof. unfold read_envelope. now intros ->. Qed.
+
+  (* histories on ONE package object (encode, change it, encode again ...): what an encoding returns depends
+     only on the contents the object has at that moment and on the configuration, not on earlier steps *)
+  Theorem history_fresh s : forall p q r,
+    In (q, r) (run_steps package json_payload compress utf8_ok p s) ->
+    exists c, r = make_envelope package json_payload compress q c \/
+              r = make_envelope_str package json_payload compress utf8_ok q c.
+  Proof.
+    induction s as [|[c|c|f] s IH]; intros p q r; cbn [run_steps In].
+    - tauto.
+    - intros [H|H]; [|eauto]. injection H as Hp Hr. subst. eauto.
+    - intros [H|H]; [|eauto]. injection H as Hp Hr. subst. eauto.
+    - eauto.
+  Qed.
+  (* ... and every envelope a history produces decodes to the contents the object had when it was encoded *)
+  Theorem history_roundtrip s p q e :
+    In (q, Ok e) (run_steps package json_payload compress utf8_ok p s) ->
+    read_envelope package json_parse decompress e = Ok q.
+  Proof.
+    intros H. apply history_fresh in H. destruct H as (c & [H|H]); symmetry in H.
+    - eapply envelope_roundtrip; eassumption.
+    - eapply str_roundtrip; eassumption.
+  Qed.
 End RT.
+
+(* non-trivial instance: contents = a version number bumped by each change; the second encoding carries 1 *)
+Example history_example :
+  map snd (run_steps N (fun v => [v]) (fun _ b => b) (fun _ => true) 0
+             [SEncode N {| cformat := JSON; czstd := None |}; SMutate N N.succ;
+              SEncodeStr N {| cformat := JSON; czstd := None |}])
+  = [Ok (MAGIC ++ [63; 64; 0]); Ok (MAGIC ++ [63; 64; 1])].
+Proof. reflexivity. Qed.
